@@ -295,6 +295,13 @@ func VerifC20Admission() {
 	dpStart, dpOffset := uint64(vs.Param("dp_start")), uint64(vs.Param("dp_offset"))
 	s := New(chain, prices, time.Second, ch, c20Logger(), val, pending, dpStart, dpOffset)
 	c20DeviationStub(sigs)
+	// what earlier polling rounds left behind: a signal that is no longer a current feed may still be in the
+	// daemon's feed index from the round in which it was one (this round must drop it)
+	for i := range sigs {
+		if !sigs[i].inFeeds && vs.Bool("was_current_feed_in_an_earlier_round") {
+			s.signalIDToFeed[sigs[i].id] = feeds.FeedWithDeviation{SignalID: sigs[i].id, Power: 1, Interval: sigs[i].interval, DeviationBasisPoint: 1}
+		}
+	}
 
 	func() {
 		defer func() {
